@@ -49,7 +49,7 @@ func TestWorker(t *testing.T) {
 			isolationCheck(t, res, seed)
 		}
 		line := map[string]interface{}{"seed": seed, "family": res.Scenario.Family, "steps": res.Steps, "sim_s": res.SimSeconds, "end": res.EndReason,
-			"writes": res.Writes, "calls": res.Calls, "stats": res.Stats, "probes": res.Probes, "violations": res.Violations,
+			"writes": res.Writes, "calls": res.Calls, "stats": res.Stats, "probes": res.Probes, "violations": res.Violations, "harness_error": res.HarnessErr,
 			"trace_hash": res.TraceHash, "log_hash": res.LogHash, "final": res.Final, "nchoices": len(res.Choices)}
 		if len(res.Violations) > 0 || i < 3 {
 			line["scenario"] = res.Scenario
@@ -88,7 +88,7 @@ func enumWorker(t *testing.T, prop string, seed0, stride int64, count int, budge
 		base := RunOne(t, NewTape(seed), seed, RunOpts{Property: prop, Mutate: quiet})
 		emit := func(res *RunResult, forced map[int]string) {
 			line := map[string]interface{}{"seed": seed, "family": res.Scenario.Family, "steps": res.Steps, "sim_s": res.SimSeconds, "end": res.EndReason,
-				"writes": res.Writes, "calls": res.Calls, "stats": res.Stats, "probes": res.Probes, "violations": res.Violations,
+				"writes": res.Writes, "calls": res.Calls, "stats": res.Stats, "probes": res.Probes, "violations": res.Violations, "harness_error": res.HarnessErr,
 				"trace_hash": res.TraceHash, "log_hash": res.LogHash, "final": res.Final, "nchoices": len(res.Choices), "forced": forced, "enum": true}
 			if len(res.Violations) > 0 {
 				line["scenario"] = res.Scenario
